@@ -90,6 +90,12 @@ class TwoRateTokenBucket(Device):
                     self.current_bucket_peak += (
                         self.pir * (env.now - self.update_time) / 8.0 - packet.size
                     )
+                    # the committed bucket fills during the wait as well
+                    self.current_bucket_commit = min(
+                        self.cbs,
+                        self.current_bucket_commit
+                        + self.cir * (env.now - self.update_time) / 8.0,
+                    )
                     packet.color = "red"
                     self.update_time = env.now
                 elif packet.size > self.current_bucket_commit:
